@@ -425,7 +425,12 @@ func genGarbage(r *simrt.Rand, pc PeerCfg, state string) garbage {
 		// one field of one attribute of a valid, attribute-rich UPDATE changed (c21_mutations.go)
 		for try := 0; try < 10; try++ {
 			v6 := pc.IPv6 && r.Chance(0.6)
-			if b, what, ok := mutateUpdateField(r, richUpdate(r, pc, v6, r.Chance(0.3))); ok {
+			ru := richUpdate(r, pc, v6, r.Chance(0.3))
+			if r.Chance(0.25) {
+				// the attribute-rich UPDATE as it is (valid): nothing may happen to the daemon either
+				return garbage{raw: ru, label: "rich_update"}
+			}
+			if b, what, ok := mutateUpdateField(r, ru); ok {
 				return garbage{raw: b, label: "update_field", why: what}
 			}
 		}
